@@ -122,6 +122,8 @@ func checkC08(c *Ctx) {
 	r.Rule("R08a", "every called identifier of every reconstructed TypeScript module is declared, a parameter or a platform global", 4)
 	r.Rule("R08k", "the TS client fills a path variable from the request property of the field's JSON name (shared with C03/R03e)", 1)
 	tsPathPropertyNames(c, "R08k")
+	r.Rule("R08p", "no emitted TypeScript value binding is named by a schema-derived string alone (reserved words and collisions with the method's locals would stop the module from loading)", 1)
+	c08NoSchemaNamedBindings(c, "R08p")
 	r.Rule("R08j", "every reconstructed TypeScript module is lexically loadable: delimiters balance and no block-scoped name is declared twice in one block, also when several services of a file use headers (shared with C13/R13h)", 2)
 	r.Rule("R08b", "path substitutions are percent-encoded by the client and decoded by the server; query via URLSearchParams", 4)
 	r.Rule("R08c", "typed header options write exactly the declared header name", 6)
@@ -794,4 +796,40 @@ func c08ScalarTables(c *Ctx) {
 	} else {
 		checkConversionTable(c, ep, "R08o")
 	}
+}
+
+var tsSchemaNamedBinding = regexp.MustCompile(`^\s*(?:export\s+)?(?:const|let|var|function)\s+(\*+)\s*(?:[=:;(]|$)`)
+
+// c08NoSchemaNamedBindings — R08p. No emitted TypeScript value binding (const / let / var / function) is named by a
+// schema-derived string alone: a field called `package`, `class`, `default`, `new`, `delete` or like one of the method's own
+// locals (`path`, `url`, `headers`, `req`, `options`) would give `const package = …` — an early SyntaxError, the whole module
+// (every service of the file) fails to load. Names with a constant prefix or suffix around the schema part are fine.
+func c08NoSchemaNamedBindings(c *Ctx, rid string) {
+	r := c.R
+	nLines := 0
+	reported := map[string]bool{}
+	for _, spec := range [][2]string{{pkgTSClient, "_client.ts"}, {pkgTSServer, "_server.ts"}} {
+		ri := c.Root(spec[0], spec[1])
+		if ri == nil {
+			r.Unres(rid, spec[1], "", "unit root not found")
+			continue
+		}
+		ex := c.ExploreDeep(ri.Fn, 1, 40000)
+		for _, v := range ex.Variants {
+			for _, u := range v.Units {
+				for _, l := range u.Lines {
+					nLines++
+					t := holeFree(lineText(l.Segs))
+					if m := tsSchemaNamedBinding.FindStringSubmatch(t); m != nil {
+						k := fmt.Sprintf("%s *%s: no value binding is named by a schema string alone (%s)", pkgShort(spec[0]), spec[1], strings.TrimSpace(t))
+						if !reported[k] {
+							reported[k] = true
+							r.Bad(rid, k, c.P.Pos(l.Pos), "the emitted line `"+strings.TrimSpace(t)+"` declares a binding whose whole name comes from the schema (* stands for the schema-derived part): a field named like a reserved word (package, class, default, new …) or like one of the generated method's own locals makes the module a SyntaxError, so no RPC of the file can be called", nil)
+						}
+					}
+				}
+			}
+		}
+	}
+	r.OKd(rid, "emitted TypeScript lines inspected for schema-named value bindings", "", map[string]any{"lines": nLines, "schema_named": len(reported)})
 }
